@@ -2,6 +2,7 @@
 #include <stdio.h>
 #include <stdlib.h>
 #include <string.h>
+#include <unistd.h>
 #include <string>
 #include "engine.hpp"
 
@@ -37,9 +38,12 @@ int main(int argc, char** argv) {
         else pos.push_back(a);
     }
     if (workers < 1) workers = 1;
-    if (cmd == "check" && pos.size() >= 2) return jv::run_check(pos[0], pos[1], seed, workers);
-    if (cmd == "replay" && pos.size() >= 1) return jv::run_replay(pos[0], verbose);
-    if (cmd == "selftest") return jv::run_selftest(seed, n);
-    if (cmd == "one" && pos.size() >= 1) return jv::run_one(pos[0], seed, rep, view, verbose);
-    usage(); return 2;
+    // leave through _exit: the C runtime's own exit-time destructor writes the replicas' .bss, which the write trap protects
+    int rc = 2;
+    if (cmd == "check" && pos.size() >= 2) rc = jv::run_check(pos[0], pos[1], seed, workers);
+    else if (cmd == "replay" && pos.size() >= 1) rc = jv::run_replay(pos[0], verbose);
+    else if (cmd == "selftest") rc = jv::run_selftest(seed, n);
+    else if (cmd == "one" && pos.size() >= 1) rc = jv::run_one(pos[0], seed, rep, view, verbose);
+    else usage();
+    fflush(stdout); fflush(stderr); _exit(rc);
 }
